@@ -6,6 +6,8 @@ import codec_rules
 import width_rules
 import page_rules
 import cache_rules
+import xml_rules
+import bound_rules
 
 TECHNIQUE = "binary layout tables extracted from MIR and compared with an independent spec table, packet dispatch decision table, skip-length expression trees against the header sizes, defaults table of omitted type attributes, stream-size loop shape, extraction-window and page-cursor formula trees"
 EXPLANATION = (
@@ -27,6 +29,7 @@ def run(ctx):
     ctx.rule("R4", "data packet: count guard, u16 sizes into buffer_sizes[i], exactly size_i bytes appended to byte_streams[i]")
     ctx.rule("R5", "bit extraction window (16 bytes / u128, shift by phase), append keeps unconsumed tail and phase (shared with C12-R4)")
     ctx.rule("R6", "page cursor arithmetic: seek_physical / align formulas, cursor written only by verified functions, read served at offset % (page_size-4) of the verified page (shared with C11/C07)")
+    ctx.rule("R7", "any legal lexical form: string values are Node::text() unchanged (no trimming), the XML parser runs with its default limits (shared with C04-R6 / C09-R5)")
     for cfg in (["lib"] if ctx.tier == "quick" else ["lib", "lib_crc32c"]):
         prog, info = load_program(cfg, "e57")
         ctx.configs[cfg] = info
@@ -36,6 +39,8 @@ def run(ctx):
         packet_rules.skip_length(ctx, prog, "R2")
         packet_rules.reserved_bytes(ctx, prog, "R2")
         packet_rules.defaults_table(ctx, prog, "R3")
+        xml_rules.string_values_unchanged(ctx, prog, "R7")
+        bound_rules.xml_parser_options(ctx, prog, "R7")
         packet_rules.stream_loop_shape(ctx, prog, "R4")
         codec_rules.extract_window(ctx, prog, "R5")
         codec_rules.append_shape(ctx, prog, "R5")
